@@ -13,9 +13,9 @@ from harness.framework import Suite
 
 PID = "C01"
 TRANSLATE = True
-TRANSLATE_ALGO = ["AlgoWriter"]   # Gen/AlgoWriter.lean is regenerated on every run from io.py::to_swc (+ its closure get_v) and swc.py::SWCLike.to_swc
+TRANSLATE_ALGO = ["AlgoWriter", "AlgoReadFront"]   # Gen/AlgoWriter.lean is regenerated on every run from io.py::to_swc (+ its closure get_v) and swc.py::SWCLike.to_swc
 DRIVER_FILES = ["SwcVerif/Model/AlgoRunWriter.lean"]
-LEAN_MODS = ["SwcVerif.Props.C01", "SwcVerif.Props.C01Gen"]
+LEAN_MODS = ["SwcVerif.Props.C01", "SwcVerif.Props.C01Gen", "SwcVerif.Props.C01Front"]
 THEOREMS = [
     "C01.writer_consts_pinned", "C01.digits_parse", "C01.fmt4_parse", "C01.row_roundtrip", "C01.comment_roundtrip", "C01.comment_text_same",
     "C01.header_dropped", "C01.written_lines_are_lines", "C01.table_roundtrip", "C01.comments_roundtrip", "C01.reset_restores",
@@ -25,6 +25,8 @@ THEOREMS = [
     "C01.generated_to_swc_spec", "C01.generated_swclike_spec", "C01.generated_lines_eq_model", "C01.generated_writer_eq_model",
     "C01.generated_row_roundtrip", "C01.generated_table_roundtrip", "C01.generated_comments_roundtrip", "C01.generated_roundtrip_reset",
     "C01.generated_write_generated_read",
+    # … and read through the whole translated front end of the reader (Gen/AlgoReadFront.lean + the read loop)
+    "C01.generated_write_generated_read_front",
 ]
 TRUSTED = ["hand-written writer/reader text models (Model/SwcText.lean) tied by the c01.roundtrip correspondence; constants pinned via Gen/Consts.lean"]
 ASSUMPTIONS = ["CPython float formatting f'{v:.4f}' (correct rounding of the binary value) and float() parsing; float32 storage after reading",
